@@ -136,6 +136,7 @@ def jobs(prog, tier):
             if tier != 'thorough' and (chunk, padding) == ('Shake', 'Shake') and nseg > 1:
                 continue
             js.append(('vmess::decode_packet[Aes128Gcm,%s,%s,server,segments=%d]' % (chunk, padding, nseg), make_vmess_body_job('Aes128Gcm', chunk, padding, 'server', tier, nseg, packet=True), 1500))
+    js.append(('WebSocketFramed::poll_next', make_ws_job(), 600))
     for (chunk, padding, command) in (('Auth', 'Empty', 'TCP'), ('Plain', 'Empty', 'UDP'), ('Shake', 'Empty', 'TCP')):
         for nseg in segs:
             if tier != 'thorough' and chunk != 'Auth' and nseg > 1:
@@ -272,4 +273,122 @@ def make_vmess_server_job(security, chunk, padding, command, tier, nseg):
                 prove_all(ctx, ex, p, msgs, req.payloads, 'a valid request has completely arrived but not all of its content is released (stall or loss) in some segmentation', site, rp)
         ctx.out.vacuity = [('some run ends with the transport quiet', nquiet > 0)]
         ctx.out.samples.append({'decoder': 'vmess::ServerAeadCodec::decode', 'options': [security, chunk, padding, command], 'segments': nseg, 'runs': len(results)})
+    return job
+
+
+# --------------------------------------------------------------------------- WebSocketFramed::poll_next (repository code)
+def make_ws_job():
+    """The MIR of WebSocketFramed::poll_next, generic over the transport and the codec: the inner message stream is a contract
+    (Pending | end | error | a binary/text message of arbitrary length | a control message), the codec's decode is the Decoder
+    contract (Ok(None) consuming nothing, Ok(Some) consuming 1..len bytes, Err).  From every state of the carry-over buffer:
+      W1  Pending is returned only if the inner stream returned Pending as the last thing in this call (else no waker is registered);
+      W2  when Pending is returned, the decoder has already said "incomplete" about exactly the bytes that are buffered (a frame that
+          has completely arrived is never left waiting for another message);
+      W3  bytes received and not consumed by the decoder are kept (conservation: carried + received == consumed + kept)."""
+    def job(ctx):
+        prog = ctx.prog
+        ex = ctx.new_exec(unroll=12)
+        fn = prog.find_fn(r'codec::<impl at octo-squirrel/src/codec\.rs:[^>]*>::poll_next$')
+        carry_len = z3.BitVec('carry_len', 64)
+        has_carry = z3.Bool('has_carry')
+        tried = z3.Bool('carry_already_incomplete')   # ghost: the decoder has already returned None on exactly the carried bytes
+
+        def poll_inner(ex_, p, m, a, fu, fr):
+            n = p.ghost.get('polls', 0)
+            if n >= 3:
+                return [dict(stop='inner poll bound')]
+            ml = fresh('msg_len', BV64)
+            binary = fresh('msg_is_data', z3.BoolSort())
+            msg = Agg('struct', ((binary, 'bool'), Buf('bytes', fresh_bytes('msg'), bv64(0), ml)), 'Message')
+            k = fresh('inner', z3.BitVecSort(2))
+
+            def mk(pending, got):
+                def app(q):
+                    q.ghost['polls'] = n + 1
+                    q.ghost['last_inner_pending'] = pending
+                    if got is not None:
+                        q.ghost['received'] = q.ghost.get('received', bv64(0)) + z3.If(binary, got, bv64(0))
+                        q.ghost['fresh_bytes'] = z3.Or(q.ghost.get('fresh_bytes', F), z3.And(binary, got != 0))
+                return app
+            poll = lambda v: Enum(bv64(0), {'Ready': (v,)}, 'Poll')
+            return [dict(cond=k == 0, value=Enum(bv64(1), {}, 'Poll'), apply=mk(True, None)),
+                    dict(cond=k == 1, value=poll(opt_none()), apply=mk(False, None)),
+                    dict(cond=k == 2, value=poll(opt_some(res_err(Opaque('ws error')))), apply=mk(False, None)),
+                    dict(cond=z3.And(k == 3, z3.ULE(ml, 1 << 20)), value=poll(opt_some(res_ok(msg))), apply=mk(False, ml))]
+
+        def decode(ex_, p, m, a, fu, fr):
+            from ..models import target_ref
+            tr = target_ref(ex_, p, a[1])
+            b = ex_.load(p.st, tr.base, tr.proj)
+            k = fresh('dec', z3.BitVecSort(2))
+            used = fresh('used', BV64)
+
+            def some(q):
+                ex_.store(q.st, tr.base, tr.proj, b.with_(off=b.off + used, len=b.len - used))
+                q.ghost['consumed'] = q.ghost.get('consumed', bv64(0)) + used
+                q.ghost['none_on'] = None
+                q.ghost['fresh_bytes'] = F
+
+            def none(q):
+                q.ghost['none_on'] = b.len
+                q.ghost['fresh_bytes'] = F
+            # a decoder that already said "incomplete" about exactly these bytes says so again (Decoder contract: deterministic)
+            known_incomplete = z3.And(z3.Not(p.ghost.get('fresh_bytes', F)), tried, p.ghost.get('consumed') is None)
+            return [dict(cond=k == 0, value=res_ok(opt_none()), apply=none),
+                    dict(cond=z3.And(k == 1, z3.ULE(used, b.len), used != 0, z3.Not(known_incomplete)), value=res_ok(opt_some(Opaque('item'))), apply=some),
+                    dict(cond=z3.And(k == 2, z3.Not(known_incomplete)), value=res_err(Opaque('decode error')))]
+        ex.overrides += [
+            (re.compile(r'StreamExt>::poll_next_unpin$'), poll_inner),
+            (re.compile(r'^<C as (?:tokio_util::codec::)?Decoder>::decode$'), decode),
+            (re.compile(r'^<Pin<&mut WebSocketFramed<.*>> as (?:std::ops::)?DerefMut>::deref_mut$'), lambda ex_, p, m, a, fu, fr: one(ex_.final_ref(p.st, a[0]))),
+            (re.compile(r'^Message::(is_binary|is_text)$'), lambda ex_, p, m, a, fu, fr: one((ex_.deref_all(p.st, a[0]).fields[0][0] if m.group(1) == 'is_binary' else F, 'bool'))),
+            (re.compile(r'^Message::(as_payload|into_payload)$'), lambda ex_, p, m, a, fu, fr: one((ex_.deref_all(p.st, a[0]) if isinstance(a[0], Ref) else a[0]).fields[1])),
+            (re.compile(r'^<tokio_websockets::Payload as (?:std::ops::)?Deref>::deref$'), lambda ex_, p, m, a, fu, fr: one(a[0])),
+            (re.compile(r'^<BytesMut as From<tokio_websockets::Payload>>::from$'), lambda ex_, p, m, a, fu, fr: one(Buf('bytesmut', a[0].arr, a[0].off, a[0].len))),
+        ]
+        carry = Enum(z3.If(has_carry, bv64(1), bv64(0)), {'Some': (Buf('bytesmut', z3.Array('carry', BV64, BV8), bv64(0), carry_len),)}, 'Option')
+        # fields: stream, codec, encode_item, decode_item, buffer, readable ("the buffer holds bytes the decoder has not seen")
+        readable = z3.Bool('readable')
+        me = Agg('struct', (Opaque('stream'), Opaque('codec'), Agg('zst', ()), Agg('zst', ()), carry, (readable, 'bool')), 'WebSocketFramed')
+        nfields = 5
+        ex.inputs = {'has_carry': (has_carry, 'bool'), 'carry_len': (carry_len, 'usize'), 'carry_already_incomplete': (tried, 'bool')}
+        # representation invariant of the adapter: bytes the decoder has not seen yet are flagged readable
+        pcs = [z3.ULE(carry_len, 1 << 20), z3.Implies(has_carry, carry_len != 0), z3.Implies(z3.Not(has_carry), z3.Not(tried)), z3.Implies(has_carry, readable == z3.Not(tried)),
+               z3.Implies(z3.Not(has_carry), z3.Not(readable))]
+        paths = ex.run(fn, [Ref('#pin'), Opaque('cx')], pcs, st0={'#pin': Ref('#self'), '#self': me})
+        ctx.absorb(ex, paths)
+        site = fn.name + '@return'
+
+        def rp(m):
+            return {'entry': 'ws_framed'}
+        npend = nready = 0
+        for p in paths:
+            if p.status != 'return':
+                continue
+            ret = p.ret
+            d = z3.simplify(ret.disc)
+            pending = z3.is_bv_value(d) and d.as_long() == 1
+            buf = p.st['#self'].fields[nfields - 1]
+            kept = z3.If(buf.disc == 1, buf.payloads['Some'][0].len, bv64(0)) if 'Some' in buf.payloads else bv64(0)
+            received = p.ghost.get('received', bv64(0))
+            consumed = p.ghost.get('consumed', bv64(0))
+            if p.ghost.get('consumed') is None:
+                consumed = bv64(0)
+            start = z3.If(has_carry, carry_len, bv64(0))
+            ctx.prove(ex, p, start + received == consumed + kept, 'bytes that were received and not consumed by the decoder are dropped (the next frame is then decoded from its middle)', site, replay=rp)
+            if pending:
+                npend += 1
+                ctx.prove(ex, p, T if p.ghost.get('last_inner_pending') else F, 'poll_next returns Pending although the inner stream did not return Pending in this call: no waker is registered, the task is never polled again', site, replay=rp)
+                none_on = p.ghost.get('none_on')
+                if 'none_on' in p.ghost and none_on is not None:
+                    ok = kept == none_on
+                elif 'none_on' in p.ghost:
+                    ok = kept == 0          # the last decode produced an item: whatever is left has not been offered to the decoder
+                else:
+                    ok = z3.Or(kept == 0, tried)      # nothing decoded in this call: only fine if the carried bytes were already found incomplete
+                ctx.prove(ex, p, ok, 'poll_next returns Pending while bytes are buffered that the decoder has not been asked about: a frame that has completely arrived waits for another message (stall)', site, replay=rp)
+            else:
+                nready += 1
+        ctx.out.vacuity = [('some path returns Pending', npend > 0), ('some path returns Ready', nready > 0)]
+        ctx.out.samples.append({'function': fn.name, 'paths': len(paths), 'pending_paths': npend})
     return job
